@@ -378,6 +378,48 @@ var tfRows = []tfRow{
 			}
 			return "-1"
 		}},
+	{prop: "c06", fn: "rosterget", n: [2]int{60, 400},
+		corpus: []string{"- 0", "- -1", "- 1", "4 0", "4 1", "4,5,6 2", "4,5,6 3", "4,5,6 4", "4,5,6 -1"},
+		gen: func(c *h.Ctx) string {
+			var l []string
+			n := c.Rng.Intn(5)
+			for i := 0; i < n; i++ {
+				l = append(l, strconv.Itoa(10+i))
+			}
+			return tfJoin(l) + " " + strconv.Itoa(c.Rng.Intn(n+4)-2)
+		},
+		call: func(a []string) (string, bool) {
+			ids, ok := tfNats(a[0])
+			idx, err := strconv.Atoi(a[1])
+			if !ok || err != nil || strconv.Itoa(idx) != a[1] {
+				return "", false
+			}
+			ro := &onet.Roster{}
+			for _, id := range ids {
+				ro.List = append(ro.List, &network.ServerIdentity{ID: tfSIID(id)})
+			}
+			return tfCatch(func() string {
+				e := ro.Get(idx)
+				if e == nil {
+					return "nil"
+				}
+				for i, x := range ro.List {
+					if x == e {
+						return strconv.Itoa(i)
+					}
+				}
+				return "foreign"
+			}), true
+		},
+		// the property (the function's own promise): the entry at the index, nil on an index error
+		want: func(a []string) string {
+			ids, _ := tfNats(a[0])
+			idx, _ := strconv.Atoi(a[1])
+			if idx < 0 || idx >= len(ids) {
+				return "nil"
+			}
+			return strconv.Itoa(idx)
+		}},
 	{prop: "c09", fn: "handleerror", n: [2]int{0, 0},
 		corpus: func() []string {
 			var l []string
